@@ -229,6 +229,53 @@ def main(argv):
                     fail("comments#directive_node_exactly_for_directive_form", dict(comment=com, position=pos, source=src), dict(found=b, expected=want))
                 if str(keep) != str(proc):
                     fail("comments#directive_processing_changes_node_types_only", dict(comment=com, position=pos, source=src), dict(keep=str(keep)[:300], processed=str(proc)[:300]))
+        # every comment exactly once, in order, in the tree and in the regenerated text: comment lines before, between and
+        # after the statements and a trailing comment on every statement, for sequences of program units (also a main program
+        # without PROGRAM statement, in every position of the sequence)
+        units = {
+            "named": ["program p", "  integer :: i", "  i = 1", "end program p"],
+            "anonymous": ["integer :: i", "i = 1", "end"],
+            "subroutine": ["subroutine s(a)", "  real :: a", "  a = 1", "end subroutine s"],
+            "module": ["module m", "  integer :: k", "contains", "  subroutine t", "  end subroutine t", "end module m"],
+        }
+        orders = [("named",), ("anonymous",), ("anonymous", "subroutine"), ("subroutine", "anonymous"), ("module", "anonymous", "subroutine"),
+                  ("named", "subroutine"), ("module", "subroutine", "named")]
+        for order in orders:
+            for style in ("trailing", "lines", "both"):
+                lines, want = [], []
+                n = 0
+                for u in order:
+                    for l in units[u]:
+                        if style in ("lines", "both"):
+                            n += 1
+                            lines.append("! c%d before" % n)
+                            want.append("! c%d before" % n)
+                        if style in ("trailing", "both"):
+                            n += 1
+                            lines.append(l + " ! c%d on" % n)
+                            want.append("! c%d on" % n)
+                        else:
+                            lines.append(l)
+                n += 1
+                lines.append("! c%d last" % n)
+                want.append("! c%d last" % n)
+                src = "\n".join(lines) + "\n"
+                for std in ("f2003", "f2008"):
+                    for pd in (False, True):
+                        cases += 1
+                        try:
+                            t = parse(src, std, ignore_comments=False, process_directives=pd)
+                        except BaseException as e:  # noqa
+                            fail("comments#program_with_comment_parses", dict(units=list(order), style=style, source=src, std=std), "%s: %s" % (type(e).__name__, str(e)[:100]))
+                            continue
+                        got = [str(c).strip() for c in _walk11(t, F11.Comment) if str(c).strip()]
+                        printed = [l[l.index("!"):].strip() for l in str(t).splitlines() if "!" in l]
+                        if got != want:
+                            fail("comments#every_comment_once_in_order_in_the_tree", dict(units=list(order), style=style, source=src, std=std, process_directives=pd),
+                                 dict(missing=[c for c in want if c not in got][:5], found=len(got), expected=len(want)))
+                        if printed != want:
+                            fail("comments#every_comment_once_in_order_in_the_text", dict(units=list(order), style=style, source=src, std=std, process_directives=pd),
+                                 dict(missing=[c for c in want if c not in printed][:5], found=len(printed), expected=len(want)))
     if "C08" in only:
         base = CATALOGUE["plain"] + CATALOGUE["module"] + "subroutine k(w, n)\n  real, dimension(n) :: w\n  integer, intent(in) :: n\n  associate (a => w(1), b => (w(2) + 1.0))\n    a = b\n  end associate\n  open(unit=10, file='x')\n  nullify(p)\nend subroutine k\n"
         import re as _re2
@@ -453,7 +500,9 @@ def main(argv):
             lines = CATALOGUE[name].splitlines()
             base_tree = parse(CATALOGUE[name], "f2003")
             for pos in range(0, len(lines) + 1):
-                for d in directives[:: (1 if tier == "thorough" else 3)] + ([directives[-1]] if tier != "thorough" else []):
+                # text after the keyword of #else / #endif (the usual '#endif /* MACRO */') belongs to the directive
+                trailing = ["#else /* !HAVE_MPI */", "#endif /* HAVE_MPI */", "#endif // X", "#else  ! not X"]
+                for d in directives[:: (1 if tier == "thorough" else 3)] + ([directives[-1]] if tier != "thorough" else []) + (trailing if tier == "thorough" or pos % 3 == 1 else []):
                     src = "\n".join(lines[:pos] + [d] + lines[pos:]) + "\n"
                     cases += 1
                     try:
@@ -552,6 +601,21 @@ def main(argv):
                             continue
                         if got != want:
                             fail("include#transparent", dict(main=main, include=inc, reader=kind), dict(printed=got))
+            # spellings of the INCLUDE line (letter case, quote character, blanks): all are include lines
+            open(os.path.join(d2, "part.inc"), "w").write(body[1] + "\n")
+            for spelling in ("include 'part.inc'", "INCLUDE 'part.inc'", "Include 'part.inc'", "inCLude \"part.inc\"", "iNCLUDE'part.inc'",
+                             "include   \"part.inc\"   ", "   INCLUDE\t'part.inc'"):
+                main = "program p\n" + "\n".join(body[:1] + [spelling] + body[2:]) + "\nend program p\n"
+                open(os.path.join(d1, "main.f90"), "w").write(main)
+                cases += 1
+                for kind in ("file", "string"):
+                    try:
+                        rd = FortranFileReader(os.path.join(d1, "main.f90"), include_dirs=[d2, d1]) if kind == "file" else FortranStringReader(main, include_dirs=[d2, d1])
+                        got = str(ParserFactory().create(std="f2003")(rd))
+                    except BaseException as e:  # noqa
+                        got = "%s: %s" % (type(e).__name__, str(e)[:150])
+                    if got != want:
+                        fail("include#every_spelling_of_the_include_line", dict(main=main, include=[body[1]], reader=kind, spelling=spelling), dict(printed=got))
             # histories: the same include name resolved under different include paths in one process
             with tempfile.TemporaryDirectory() as da, tempfile.TemporaryDirectory() as db, tempfile.TemporaryDirectory() as dc:
                 open(os.path.join(da, "h.inc"), "w").write("  i = 1\n")
@@ -668,6 +732,11 @@ def main(argv):
         fam["chain_and"] = lambda n: assign(" .and. ".join("b%d" % k for k in range(n + 1)))
         fam["chain_plus"] = lambda n: assign(" + ".join("b%d" % k for k in range(n + 1)))
         fam["chain_concat"] = lambda n: assign(" // ".join("b%d" % k for k in range(n + 1)))
+        # consecutive non-block DO loops ended by an action statement, with every way of writing the label (leading zeros on
+        # either side): the look-ahead for the terminating statement must stop at it however the digits are written
+        for dl, tl in (("%d", "%d"), ("0%d", "0%d"), ("0%d", "%d"), ("%d", "00%d")):
+            fam["consecutive_nonblock_do_%s_%s" % (dl.replace("%d", "n"), tl.replace("%d", "n"))] = (
+                lambda n, dl=dl, tl=tl: "program p\n" + "".join(("do " + dl + " i = 1, n\n" + tl + " a(i) = b\n") % (10 + k, 10 + k) for k in range(n)) + "end program p\n")
         sizes0 = [2, 4, 8] if tier == "quick" else [2, 4, 8, 16]
         for name, gen in fam.items():
             sizes = sizes0
@@ -676,6 +745,8 @@ def main(argv):
             elif name.startswith("nested_") and name not in ("nested_if", "nested_do"):
                 sizes = [2, 4, 8]               # known to be exponential: larger sizes only cost time
             counts = [count(gen(n)) for n in sizes]
+            if name.startswith("consecutive_"):
+                counts = [max(c, count(gen(n), "f2008")) for c, n in zip(counts, sizes)]
             cases += len(sizes)
             samples.append(dict(family=name, sizes=sizes, constructor_calls=counts))
             for (n1, c1), (n2, c2) in zip(zip(sizes, counts), zip(sizes[1:], counts[1:])):
